@@ -125,6 +125,16 @@ Fixpoint sx_list_eqb (a b : list sx) : bool :=
   | _, _ => false
   end.
 
+(* the hypothesis of C05 notify_replays_any, on what the snapshot comparison below can see (the
+   canonical fields: path, mode, uid, gid, mtime, device numbers — not size, not xattrs): every
+   hard-link entry the writer applies announces the metadata the new name then shows, i.e. that
+   of the inode it joins.  For a dishonest entry the notification (stat as sent) and the
+   destination (the inode's metadata) differ BY SPECIFICATION; the model still predicts the
+   destination (model_obs). *)
+Definition canon_eqb (a b : stat) : bool := sx_list_eqb (canon_fields a) (canon_fields b).
+Definition case_honest (c : rcase) : bool :=
+  recv_honest_by canon_eqb (rc_mode c) (rc_differ c) (rc_A c) (rc_B c).
+
 Definition replay_ok (c : rcase) : bool :=
   let M := replay (rc_notifs c) (nview Hid hdr (dest_of (rc_A c))) in
   forallb (fun f =>
@@ -165,7 +175,7 @@ Definition case_wf (c : rcase) : bool :=
 
 Definition c05_spec (c : rcase) : bool :=
   rc_err c
-  || (replay_ok c
+  || ((negb (case_honest c) || replay_ok c)
       && match rc_mode c with
          | Fresh => negb (case_wf c) || notify_exact_b (rc_differ c) (map fst (rc_A c)) (map fst (rc_B c)) (rc_notifs c)
          | Merge => true
